@@ -2,7 +2,7 @@
 //! Runs natively, under Miri (`cargo +nightly miri run -- …`) and under valgrind.
 //! All parameters come through argv (Miri isolates the environment).
 //!
-//!   lexmon c13|c14 [--seed S] [--shard i] [--nshards n] [--maxlen L] [--random N] [--one HEX] [--case-seed X]
+//!   lexmon c13|c14 [--seed S] [--shard i] [--nshards n] [--maxlen L] [--random N] [--longcap BYTES] [--one HEX] [--case-seed X]
 use clap_lex::{OsStrExt as _, RawArgs, SeekFrom};
 use std::collections::BTreeMap;
 use std::ffi::{OsStr, OsString};
@@ -534,6 +534,58 @@ fn random_bytes(rng: &mut Rng, maxlen: usize) -> Vec<u8> {
     b
 }
 
+/// far end of "any byte string": long inputs whose interesting byte sits right at a block boundary
+/// (multiples of 16/32/64/256/…), the rest being filler that contains none of the needles' lead bytes
+fn long_bytes(rng: &mut Rng, cap: usize) -> Vec<u8> {
+    const EDGES: [usize; 12] = [16, 32, 64, 128, 192, 256, 320, 512, 768, 1024, 2048, 4096];
+    let filler: &[u8] = match rng.below(5) {
+        0 => "é".as_bytes(),
+        1 => "世".as_bytes(),
+        2 => b"x",
+        3 => b"z9",
+        _ => b"q",
+    };
+    let allowed = EDGES.iter().filter(|e| **e <= cap).count().max(1);
+    let nedges = if rng.below(4) == 0 { allowed } else { allowed.min(7) };
+    let edge = EDGES[rng.below(nedges)];
+    // total length a little beyond the edge (or well beyond it)
+    let total = edge + rng.below(8) + if cap >= 1024 && rng.below(3) == 0 { rng.below(300) } else { 0 };
+    let mut b: Vec<u8> = Vec::with_capacity(total + 8);
+    match rng.below(3) {
+        0 => b.extend_from_slice(b"--"),
+        1 => b.push(b'-'),
+        _ => {}
+    }
+    let head = b.len();
+    // the planted fragment ends up starting at edge + delta (absolute, or relative to the part
+    // after the dashes): straddling, just before, just after
+    let frag = NEEDLES[rng.below(NEEDLES.len())].as_bytes();
+    let delta = rng.below(2 * frag.len() + 3) as isize - (frag.len() as isize + 1);
+    let origin = if rng.below(2) == 0 { 0 } else { head };
+    let at = (origin as isize + edge as isize + delta).max(head as isize) as usize;
+    while b.len() < at {
+        let room = at - b.len();
+        if room >= filler.len() {
+            b.extend_from_slice(filler);
+        } else {
+            b.extend(std::iter::repeat(b'x').take(room));
+        }
+    }
+    b.extend_from_slice(frag);
+    // sometimes a second copy further on (the first occurrence is what counts)
+    while b.len() < total {
+        if rng.below(40) == 0 {
+            b.extend_from_slice(frag);
+        } else {
+            b.extend_from_slice(filler);
+        }
+    }
+    if rng.below(10) == 0 {
+        b.push(0xFF);
+    }
+    b
+}
+
 // ------------------------------------------------------------ C14: OsStrExt vs bytes
 
 fn naive_find(h: &[u8], n: &[u8]) -> Option<usize> {
@@ -644,6 +696,16 @@ enum Op {
 }
 
 const OFFSETS: [i64; 13] = [0, 1, -1, 2, -2, 3, -3, 100, -100, i64::MIN, i64::MAX, i64::MIN + 1, -4];
+
+/// (items in the raw argument list, operations): mostly small; one history in twelve is long
+/// and over a long list
+fn history_size(rng: &mut Rng) -> (usize, usize) {
+    if rng.below(12) == 0 {
+        (rng.below(70), 1 + rng.below(300))
+    } else {
+        (rng.below(4), 1 + rng.below(40))
+    }
+}
 
 fn gen_ops(rng: &mut Rng, n: usize) -> Vec<Op> {
     (0..n)
@@ -845,6 +907,7 @@ fn main() {
     let mut nshards = 1usize;
     let mut maxlen = 3usize;
     let mut random = 1000usize;
+    let mut longcap = 4096usize;
     let mut one: Option<Vec<u8>> = None;
     let mut case_seed: Option<u64> = None;
     let mut hist: Option<String> = None;
@@ -857,6 +920,7 @@ fn main() {
             "--nshards" => nshards = v.parse().unwrap(),
             "--maxlen" => maxlen = v.parse().unwrap(),
             "--random" => random = v.parse().unwrap(),
+            "--longcap" => longcap = v.parse().unwrap(),
             "--one" => one = Some(unhex(&v)),
             "--case-seed" => case_seed = Some(v.parse().unwrap()),
             "--hist" => hist = Some(v),
@@ -882,7 +946,12 @@ fn main() {
                 st.distinct += n;
                 *st.counters.entry("exhaustive.strings".into()).or_insert(0) += n;
                 for k in 0..random {
-                    let b = random_bytes(&mut rng, 24);
+                    let b = if k % 8 == 7 {
+                        st.count("random.long-strings");
+                        long_bytes(&mut rng, longcap)
+                    } else {
+                        random_bytes(&mut rng, 24)
+                    };
                     if k < 3 {
                         st.samples.push(format!("random bytes {}", hex(&b)));
                     }
@@ -920,8 +989,7 @@ fn main() {
                 run_history(p[0] as usize, &ops, &mut st);
             } else if let Some(cs) = case_seed {
                 let mut rng = Rng::new(cs);
-                let nitems = rng.below(4);
-                let n = 1 + rng.below(40);
+                let (nitems, n) = history_size(&mut rng);
                 let ops = gen_ops(&mut rng, n);
                 st.cur_replay = format!("--case-seed {}", cs);
                 run_history(nitems, &ops, &mut st);
@@ -931,13 +999,17 @@ fn main() {
                 *st.counters.entry("exhaustive.haystacks".into()).or_insert(0) += n;
                 let mut rng = Rng::new(mix(base, shard as u64));
                 for k in 0..random {
-                    let b = random_bytes(&mut rng, 16);
+                    let b = if k % 8 == 7 {
+                        st.count("random.long-haystacks");
+                        long_bytes(&mut rng, longcap)
+                    } else {
+                        random_bytes(&mut rng, 16)
+                    };
                     check_ext(&b, &mut st);
                     st.distinct += 1;
                     let cs = mix(base, ((shard as u64) << 40) | k as u64);
                     let mut r2 = Rng::new(cs);
-                    let nitems = r2.below(4);
-                    let n = 1 + r2.below(40);
+                    let (nitems, n) = history_size(&mut r2);
                     let ops = gen_ops(&mut r2, n);
                     if k < 2 {
                         st.samples.push(format!("history items={} ops={:?}", nitems, &ops[..ops.len().min(8)]));
